@@ -791,7 +791,10 @@ def operator_to_BlockSeries(
             # Sums of legacy sparse matrices with arrays are `np.matrix`, for
             # which `*` is a matrix product.
             block = separated[index]
-            return sparse.csr_array(block) if isinstance(block, sparse.spmatrix) else block
+            if isinstance(block, sparse.spmatrix):
+                block = sparse.csr_array(block)
+            # Blocks within atol of zero are zero, as for any other format.
+            return _convert_if_zero(block, atol=atol)
 
         return BlockSeries(
             eval=convert_legacy_sparse,
